@@ -25,6 +25,12 @@ def _boundary_cases():
                 s += [("turn", 2), ("failw", 1), ("net", "refuse" if outage else "accept"), ("send", n, "ok", pol), ("adv", outage or 1),
                       ("net", "accept"), ("adv", 40)]
                 out.append(("faults", s))
+    # a failed write late in the lifetime: the message sits in a blocked drain until `off` ticks before its expiry, the peer
+    # resets, and the reconnection completes just before / at / just after the expiry (incl. the last 2 s = one retry delay)
+    for off in (17, 16, 15, 9, 2, 1):
+        for lat in sorted({1, max(1, off - 1), off, off + 1}):
+            out.append(("faults", [("net", "accept"), ("open",), ("adv", 8), ("block", 1), ("send", 1, "ok", "idem"),
+                                   ("adv", 240 - off), ("lat", lat), ("peer", "reset"), ("adv", 40 + lat)]))
     # peer reset while a drain is blocked, entry with / without retries
     for pol in ("idem", "nonidem"):
         out.append(("faults", [("net", "accept"), ("open",), ("adv", 8), ("block", 1), ("send", 1, "ok", pol), ("turn", 2),
